@@ -626,9 +626,16 @@ func genC06(g *Gen, tier string, idx int) *wire.Scenario {
 	// typed text is ASCII here: non-ASCII input is C02's subject (and broken on the pinned tree);
 	// multi-byte buffers reach this check through history recall
 	uni := false
+	typedText := ""
 	for i := 0; i < nb; i++ {
 		r := g.textRune(uni)
+		typedText += string(r)
 		sc.Script = append(sc.Script, tok(string(r), "self-insert"))
+	}
+	if nb > 0 && g.P(20) {
+		// the history holds lines that begin with what is being typed (what an autosuggestion would offer)
+		h := wire.HistSrc{Kind: "memory", Name: "hx", Entries: []string{typedText + g.word(false, 3), typedText + " " + g.word(false, 2)}}
+		sc.Env.History = append(sc.Env.History, h)
 	}
 	if env.Multiline == "backslash" && g.P(70) {
 		sc.Script = append(sc.Script, tok("\\", "self-insert"), tok("\r", "accept-line"))
